@@ -81,6 +81,24 @@ func runCase(r *vf.Run, stage uint64, idx, totalOps, maxG int) bool {
 				}
 			}(ei, e)
 		}
+		if wave == 0 {
+			// one multi-layer environment per case (stores alternate with the case index):
+			// 2-4 same-shaped layers through ONE resolver, walked interleaved (multi.go)
+			store := []string{"memory", "db"}[idx%2]
+			me, ms := drawMultiEnv(r.RNG(stage, uint64(idx), 20), c, store, totalOps, maxG)
+			wg.Add(1)
+			go func() {
+				defer wg.Done()
+				done := r.Watchdog(time.Duration(r.N(3, 10))*time.Minute, fmt.Sprintf("multilayer environment stage=%d case=%d", stage, idx), func() {
+					runMultiEnv(r, c, me, ms, 100)
+				})
+				if !done {
+					mu.Lock()
+					allDone = false
+					mu.Unlock()
+				}
+			}()
+		}
 		wg.Wait()
 		if !allDone {
 			dumpGoroutines()
@@ -133,6 +151,9 @@ type envRun struct {
 	root string
 
 	roots []*nodefs.N // shared, read-only after setup
+
+	siblings []*tcase // multi-layer environments: all layers served by the same resolver
+	layerNo  int      // index of this layer among them
 
 	mu       sync.Mutex // used only by background helpers (never by walkers)
 	bgErrs   []string
